@@ -920,6 +920,134 @@ def side_by_side(harness_exe, model_exe, ops):
     return "\n".join(out), mf, irc
 
 
+# ------------------------------------------------------------------------------------------------
+# zero-sized payload build: same histories, observations compared up to what a ZST can show
+
+SIZED_CTORS = ("new", "newB", "fromBox", "uniqueNew", "newUninit", "uniqueNewUninit")
+
+
+def zst_applicable(h):
+    """histories that only build sized payloads (slices of a ZST are refused by the crate's
+    `assert_ne!(size_of::<T>(), 0)` — the layout slice covers that)"""
+    for op in h:
+        f = op.split()
+        if f[0] == "iter":
+            return False
+        if f[0] == "create" and f[2] not in SIZED_CTORS:
+            return False
+    return True
+
+
+def project_zst(line):
+    """forget what a zero-sized payload cannot carry: value identities, values, block sizes"""
+    o = parse_obs(line)
+    if o is None:
+        return line
+    evs = []
+    for e in o["ev"]:
+        p = e.split(":")
+        if p[0] in ("alloc", "dealloc"):
+            evs.append(p[0] + ":" + p[1])
+        elif p[0] in ("drop", "clone"):
+            evs.append(p[0])
+        else:
+            evs.append(e)
+    out = re.sub(r"(ok|val)=[^;]*", r"\1=_", o["out"])
+    slots = " ".join("s%d=%s.%s@b%d+%d/len%d/cnt%s" % (k, s["kind"], s["ty"], s["blk"], s["off"], s["len"], s["cnt"]) for k, s in sorted(o["slots"].items()))
+    return "%s out=%s ev=[%s] aux=%d | %s" % (o["status"], out, " ".join(sorted(evs)), o["aux"], slots)
+
+
+def zst_eval(harness_exe_zst, model_exe, ops):
+    """one history on the ZST build: (first projected disagreement or None, monitor failures, rc)"""
+    il, ml, irc = run_one(harness_exe_zst, model_exe, ops)
+    dis = None
+    for k in range(1, len(ops)):
+        a = project_zst(il[k]) if k < len(il) else "<missing: harness process died here>"
+        b = project_zst(ml[k]) if k < len(ml) else "<missing>"
+        if a != b:
+            dis = (k, a, b)
+            break
+    # the verdict / count / block monitors still apply; value-identity ones do not (a ZST has none)
+    iobs = [parse_obs(x) if k > 0 else None for k, x in enumerate(il)]
+    for o in iobs:
+        if o:
+            o["ev"] = [e for e in o["ev"] if not e.startswith("drop:")]
+            for s2 in o["slots"].values():
+                s2["dig"] = "_"
+    mon = [(k, props, msg + " [zero-sized payload build]") for (k, props, msg) in monitor_history(ops, iobs)
+           if "visible" not in msg and "delivered" not in msg and "digest" not in msg]
+    return dis, mon, irc, il, ml
+
+
+def run_zst_pass(ctx, histories, harness_exe_zst, model_exe):
+    """returns (n histories, disagreements [(hi, k, impl, model)], monitor failures [(hi, k, props, msg)], crashes)"""
+    idx = [i for i, h in enumerate(histories) if zst_applicable(h)]
+    hs = [histories[i] for i in idx]
+    text = "\n".join("\n".join(h) for h in hs) + "\n"
+    mlines, mrc = run_batch(model_exe, text)
+    ih, crashes = run_impl_resilient(harness_exe_zst, hs)
+    mh = split_histories(mlines, hs)
+    dis, mon = [], []
+    for hi, ops in enumerate(hs):
+        il, ml = ih[hi], mh[hi]
+        for k in range(1, len(ops)):
+            a = project_zst(il[k]) if k < len(il) else "<missing: harness process died here>"
+            b = project_zst(ml[k]) if k < len(ml) else "<missing>"
+            if a != b:
+                dis.append((idx[hi], k, a, b))
+                break
+        iobs = [parse_obs(x) if k > 0 else None for k, x in enumerate(il)]
+        for o in iobs:
+            if o:
+                o["ev"] = [e for e in o["ev"] if not e.startswith("drop:")]
+                for s2 in o["slots"].values():
+                    s2["dig"] = "_"
+        for (k, props, msg) in monitor_history(ops, iobs):
+            if "visible" not in msg and "delivered" not in msg and "digest" not in msg:
+                mon.append((idx[hi], k, props, msg + " [zero-sized payload build]"))
+    return len(hs), dis, mon, [(idx[k], rc) for k, rc in crashes]
+
+
+def zst_shrink(harness_exe_zst, model_exe, ops, props=None, budget=150):
+    def bad(c):
+        dis, mon, rc, _, _ = zst_eval(harness_exe_zst, model_exe, c)
+        if props:
+            return any(set(p) & set(props) for _, p, _ in mon)
+        return dis is not None or rc != 0
+    body = ops[1:]
+    n = 2
+    runs = 0
+    while len(body) >= 2 and runs < budget:
+        chunk = max(1, len(body) // n)
+        reduced = False
+        for i in range(0, len(body), chunk):
+            cand = body[:i] + body[i + chunk:]
+            runs += 1
+            if cand and bad(["reset"] + cand):
+                body = cand
+                n = max(n - 1, 2)
+                reduced = True
+                break
+        if not reduced:
+            if chunk == 1:
+                break
+            n = min(len(body), n * 2)
+    return ["reset"] + body
+
+
+def zst_side_by_side(harness_exe_zst, model_exe, ops):
+    dis, mon, rc, il, ml = zst_eval(harness_exe_zst, model_exe, ops)
+    out = ["(payload type: the harness's zero-sized `Tracked`; model lines are shown projected onto what a ZST can carry)"]
+    for k, op in enumerate(ops):
+        out.append("op   : " + op)
+        out.append("  impl : " + (il[k] if k < len(il) else "<no output: harness exited rc=%s>" % rc))
+        out.append("  model: " + (project_zst(ml[k]) if 0 < k < len(ml) else (ml[k] if k < len(ml) else "<none>")))
+        for (kk, props, msg) in mon:
+            if kk == k:
+                out.append("  PROPERTY %s FAILS HERE: %s" % ("/".join(props), msg))
+    return "\n".join(out), mon, rc, dis
+
+
 def generate(ctx, n_hist, length, weights=None, seed_salt=0):
     rng = random.Random(ctx.seed * 1000003 + seed_salt)
     model = ModelProc()
